@@ -415,8 +415,100 @@ impl Recorder for Reentrant {
     }
 }
 
+/// Process-lane variant: the crate's own `NoopRecorder` takes part in the installation — first and alone, or racing
+/// the logging recorders. It is a recorder like any other: exactly one installation succeeds, and if it is the no-op
+/// one, every other recorder is handed back and no emission reaches anybody.
+fn child_with_noop(seed: u64) -> i32 {
+    use std::sync::{Arc, Barrier};
+    let log = new_log();
+    let racing = seed % 16 >= 8;
+    let k = 3usize;
+    let mut oks = 0usize;
+    if !racing {
+        if metrics::set_global_recorder(metrics::NoopRecorder).is_err() {
+            println!("CHILD-FAIL not-exactly-one-winner installing NoopRecorder into a fresh process failed");
+            return 1;
+        }
+        oks += 1;
+        metrics::counter!("to_the_noop_recorder").increment(1);
+    }
+    let barrier = Arc::new(Barrier::new(k + racing as usize));
+    let results: Arc<Mutex<Vec<(usize, bool, u32, u32)>>> = Arc::new(Mutex::new(vec![]));
+    let mut hs = vec![];
+    for i in 0..k {
+        let rec = LogRecorder::new(i as u32 + 1, &log);
+        let dc = rec.drops.clone();
+        let (b, results) = (barrier.clone(), results.clone());
+        hs.push(std::thread::spawn(move || {
+            b.wait();
+            match metrics::set_global_recorder(rec) {
+                Ok(()) => results.lock().unwrap().push((i, true, i as u32 + 1, 0)),
+                Err(e) => {
+                    let back = e.into_inner();
+                    let d = dc.load(Ordering::SeqCst);
+                    results.lock().unwrap().push((i, false, back.id, d));
+                    if d != 0 {
+                        std::mem::forget(back);
+                    }
+                }
+            }
+        }));
+    }
+    let noop_ok = Arc::new(std::sync::atomic::AtomicBool::new(false));
+    if racing {
+        let (b, noop_ok) = (barrier.clone(), noop_ok.clone());
+        hs.push(std::thread::spawn(move || {
+            b.wait();
+            if metrics::set_global_recorder(metrics::NoopRecorder).is_ok() {
+                noop_ok.store(true, Ordering::SeqCst);
+            }
+        }));
+    }
+    for h in hs {
+        if h.join().is_err() {
+            println!("CHILD-FAIL panic-in-thread a racing installer panicked");
+            return 1;
+        }
+    }
+    let results = results.lock().unwrap();
+    oks += results.iter().filter(|r| r.1).count() + noop_ok.load(Ordering::SeqCst) as usize;
+    if oks != 1 {
+        println!("CHILD-FAIL not-exactly-one-winner {} installations succeeded ({}: NoopRecorder {}, logging recorders {:?})", oks, if racing { "racing" } else { "NoopRecorder first" }, if racing { noop_ok.load(Ordering::SeqCst) } else { true }, results.iter().filter(|r| r.1).map(|r| r.2).collect::<Vec<_>>());
+        return 1;
+    }
+    for (i, ok, id, d) in results.iter() {
+        if !ok && (*id != *i as u32 + 1 || *d != 0) {
+            println!("CHILD-FAIL rejected-recorder-not-handed-back installer {} got recorder {} with {} drops", i, id, d);
+            return 1;
+        }
+    }
+    let winner: Option<u32> = results.iter().find(|r| r.1).map(|r| r.2);
+    let before = log.lock().unwrap().len();
+    let _ = std::thread::spawn(|| metrics::counter!("after_the_race").increment(1)).join();
+    metrics::describe_gauge!("after_the_race", "d");
+    let l = log.lock().unwrap();
+    let new: Vec<u32> = l[before..].iter().map(|e| e.rec).collect();
+    match winner {
+        None if !new.is_empty() || !l.is_empty() => {
+            println!("CHILD-FAIL lookup-returned-non-winner the NoopRecorder was installed, yet recorders {:?} received emissions", l.iter().map(|e| e.rec).collect::<Vec<_>>());
+            1
+        }
+        Some(w) if new.iter().any(|r| *r != w) || new.len() < 2 => {
+            println!("CHILD-FAIL late-emission-not-delivered recorder {} won, emissions after the race reached {:?}", w, new);
+            1
+        }
+        _ => {
+            println!("CHILD-OK NoopRecorder {} ; winner {:?}", if racing { "raced the others" } else { "was installed first" }, winner);
+            0
+        }
+    }
+}
+
 pub fn child(seed: u64) -> i32 {
     use std::sync::{Arc, Barrier};
+    if seed % 8 == 7 {
+        return child_with_noop(seed);
+    }
     let k = 2 + (seed % 3) as usize;
     let emitters = 1 + (seed / 3 % 3) as usize;
     let log = new_log();
